@@ -433,6 +433,33 @@ func c04Inputs(c *fw.Ctx, i int) []hostileInput {
 				add("media/aggregate", state, s)
 			}
 		}
+		// aggregates cut at every offset (each sub-message header and body boundary), and complete
+		// aggregates followed by 1..10 stray bytes; right after the handshake and while publishing
+		for _, state := range []int{2, 3, 5} {
+			agg := ref.BuildAggregate([]ref.RtmpMsg{{TypeID: 9, Ts: 10, StreamID: 1, Payload: gen.VideoFrame(r, 1, 77, true, 0, 12)}, {TypeID: 8, Ts: 12, StreamID: 1, Payload: gen.AudioFrame(r, 1, 77, 9)},
+				{TypeID: 9, Ts: 14, StreamID: 1, Payload: gen.VideoFrame(r, 1, 78, false, 0, 10)}})
+			for n := 0; n <= len(agg); n++ {
+				s := newScript().prefix(state, name)
+				s.msg(6, 22, 1, 100, agg[:n])
+				add("media/aggregate-cut", state, s)
+			}
+			for extra := 1; extra <= 10; extra++ {
+				s := newScript().prefix(state, name)
+				s.msg(6, 22, 1, 100, append(append([]byte(nil), agg...), randBytes(extra)...))
+				add("media/aggregate-stray-tail", state, s)
+			}
+		}
+		// large media messages at extended timestamps while publishing (the server re-chunks every
+		// published message whether or not anyone subscribes)
+		for _, size := range []int{4097, 8193, 9000, 13000, 70000} {
+			for _, ts := range []uint32{0xFFFFFE, 0xFFFFFF, 0x1000000, 0xFFFFFFFF} {
+				s := newScript().prefix(5, name)
+				s.msg(6, 9, 1, 0, gen.AvcSeqHeader(1, 0))
+				s.msg(6, 9, 1, ts, gen.VideoFrame(r, 1, 79, true, 0, size))
+				s.msg(4, 8, 1, ts, gen.AudioFrame(r, 1, 79, size))
+				add("media/large-at-extended-timestamp", 5, s)
+			}
+		}
 		// repeated / re-ordered session commands (well-formed messages in hostile order)
 		for _, seq := range [][]string{{"publish", "publish"}, {"publish", "play"}, {"play", "publish"}, {"play", "play"}, {"connect", "connect"}, {"publish", "connect"}, {"play", "createStream", "publish"},
 			{"publish", "deleteStream", "publish"}, {"publish", "FCUnpublish", "play"}} {
@@ -569,7 +596,7 @@ func init() {
 		ID:          "C04",
 		NumCases:    func(tier string, seed int64) int { return c04Sizes(tier) },
 		CaseTimeout: func(string) time.Duration { return 10 * time.Minute },
-		Rule: "one sub-input = one hostile TCP connection to the RTMP listener of the whole in-process server (all outputs on): raw bytes and handshake variants; a valid prefix to each of 7 protocol states followed by every message type id × small payloads, control/user-control/ack messages truncated at every offset, Set Chunk Size / window-ack extremes, each known command truncated at every offset / bit-flipped / with every argument replaced by every AMF type, raw AMF oddities (huge counts, lengths beyond the buffer), A/V, data and aggregate messages in every role, well-formed commands in hostile order (publish twice, play after publish…), raw chunk-header mutations (all formats, csid forms, extended timestamps, maximal declared lengths), AMF containers nested up to 5.5M levels in 16 MiB messages, and 1/2/7/13/random-byte fragmentation. " +
+		Rule: "one sub-input = one hostile TCP connection to the RTMP listener of the whole in-process server (all outputs on): raw bytes and handshake variants; a valid prefix to each of 7 protocol states followed by every message type id × small payloads, control/user-control/ack messages truncated at every offset, Set Chunk Size / window-ack extremes, each known command truncated at every offset / bit-flipped / with every argument replaced by every AMF type, raw AMF oddities (huge counts, lengths beyond the buffer), A/V, data and aggregate messages in every role, aggregates cut at every offset or followed by stray bytes, multi-chunk media at extended timestamps while publishing, well-formed commands in hostile order (publish twice, play after publish…), raw chunk-header mutations (all formats, csid forms, extended timestamps, maximal declared lengths), AMF containers nested up to 5.5M levels in 16 MiB messages, and 1/2/7/13/random-byte fragmentation. " +
 			"The input is logged before it is sent; the connection is half-closed and drained so lal has consumed it before the next one. monitors: process liveness (panic / fatal error text + innermost lal frame) and a canary publisher+player after every group. cell = state × input class.",
 		Assumptions: []string{"a hostile connection that lal keeps open or closes is not judged; only process death or a failing canary is", "declared message lengths up to 16 MiB are sent for a bounded number of chunk streams per connection"},
 		MinCells: 20,
